@@ -712,7 +712,7 @@ func ownRevisionRule(c *Ctx, rule string) {
 				notLeader := false
 				for _, l := range gs {
 					if !l.Truth && m.isClaimLoadSym(l.S) {
-						if ld, ok := l.S.V.(*ssa.Call); ok && ld.Parent() == f && la.MustBefore(ld)[m.implMuW()] {
+						if ld, ok := l.S.V.(*ssa.Call); ok && ld.Parent() == f && la.MustBefore(ld)[m.implMuW()] && m.sameHold(ld, in, m.path(m.Mu)) {
 							notLeader = true
 						}
 					}
